@@ -201,3 +201,8 @@ Theorem C15_general_name_roundtrip_refuted_legacy :
   exists choice d der, general_name_enc false choice d = Some der /\ general_name_dec der = None.
 Proof. exact general_name_roundtrip_refuted_legacy. Qed.
 Print Assumptions C15_general_name_roundtrip_refuted_legacy.
+
+Theorem C15_validity_add_days_ok : forall nb days na, validity_add_days nb days = Some na ->
+  (nb < na /\ na - nb <= 3653 * 86400 /\ na - nb = days * 86400)%Z.
+Proof. exact validity_add_days_ok. Qed.
+Print Assumptions C15_validity_add_days_ok.
